@@ -357,3 +357,346 @@ def c14(tier, replay):
                        "minimally parenthesised text differs from the fully parenthesised one")
     rep.cov["exhaustive"] = True
     return rep.finish()
+
+
+# ---------------------------------------------------------------------------
+# C16 / C20: multi-file schemas (spec/FileProc.tla)
+# ---------------------------------------------------------------------------
+FP_INVARIANTS = ["ReadOnce", "DirsDiscipline", "DirsRestored", "ResolutionDeclarative", "MissingReported", "FDump"]
+
+
+def fileproc_cases():
+    cases = []
+    res = run_tlc("FileProc", {}, invariants=FP_INVARIANTS, properties=["Terminates"], spec="FSpec", prefix=("FCFG",),
+                  on_line=lambda t, b: cases.append(json.loads(b)))
+    return cases, [res.stats]
+
+
+DECL = {
+    "A": "const CA = 3;\nenum EA { EA_x = 1, EA_y = 5 };\nstruct SA { u8 x[CA]; EA e; };\n",
+}
+
+
+def file_texts(cfg, with_includes=True):
+    """The three source files of a configuration.  A file uses the types of a
+    file it includes directly (and only then)."""
+    incs = cfg["incs"]
+
+    def inc_lines(f):
+        return "".join('#include "%s.prophy"\n' % leaf for leaf in incs[f]) if with_includes else ""
+    a = inc_lines("A") + DECL["A"]
+    b = inc_lines("B") + "struct SB { %su16 y; u64 z; };\n" % ("SA a; " if "A" in incs["B"] else "")
+    m = inc_lines("M") + "struct SM { %s%su8 t; i16 w<>; };\n" % ("SA a; " if "A" in incs["M"] else "",
+                                                                   "SB b; " if "B" in incs["M"] else "")
+    return {"A": a, "B": b, "M": m}
+
+
+def single_file_text(cfg):
+    t = file_texts(cfg, with_includes=False)
+    return t["A"] + t["B"] + t["M"]
+
+
+def materialise(cfg, root):
+    """-> {file: absolute path}"""
+    texts = file_texts(cfg)
+    paths = {}
+    for d in ("d0", "d1", "d2", "out", "single", "elsewhere"):
+        os.makedirs(os.path.join(root, d), exist_ok=True)
+    for f in ("M", "A", "B"):
+        d = "d0" if f == "M" else cfg["dirOf"][f]
+        paths[f] = os.path.join(root, d, f + ".prophy")
+        with open(paths[f], "w") as fh:
+            fh.write(texts[f])
+    with open(os.path.join(root, "single", "ALL.prophy"), "w") as fh:
+        fh.write(single_file_text(cfg))
+    return paths
+
+
+_opens = {}
+
+
+def _audit(event, args):
+    if event == "open" and args and isinstance(args[0], str) and args[0].endswith(".prophy"):
+        _opens[os.path.abspath(args[0])] = _opens.get(os.path.abspath(args[0]), 0) + 1
+
+
+_audit_installed = [False]
+
+
+def load_package(outdir, pkg, stems):
+    """Import generated modules that use relative imports ('from .A import')."""
+    import importlib
+    import sys
+    with open(os.path.join(outdir, "__init__.py"), "w"):
+        pass
+    parent = os.path.dirname(outdir)
+    sys.path.insert(0, parent)
+    try:
+        importlib.invalidate_caches()
+        return {s: importlib.import_module("%s.%s" % (os.path.basename(outdir), s)) for s in stems}
+    finally:
+        sys.path.remove(parent)
+
+
+def include_worker(cases, wid, extra):
+    import sys
+    res = {"fails": [], "n": 0, "samples": [], "nontrivial": 0, "n_ok": 0, "n_diag": 0}
+    if not _audit_installed[0]:
+        sys.addaudithook(_audit)
+        _audit_installed[0] = True
+    base = tempfile.mkdtemp(prefix="vfinc-", dir=extra.get("scratch"))
+    try:
+        for ci, cfg in enumerate(cases):
+            root = os.path.join(base, "w%d_c%d" % (wid, ci))
+            os.makedirs(root)
+            paths = materialise(cfg, root)
+            out = os.path.join(root, "out%d_%d" % (wid, ci))
+            os.makedirs(out)
+            idirs = []
+            for d in cfg["idirs"]:
+                idirs += ["-I", os.path.join(root, d)]
+            # cwd arrangement: absolute paths from elsewhere, or relative from the main's directory
+            rel = (ci % 2 == 0)
+            old = os.getcwd()
+            if rel:
+                os.chdir(os.path.join(root, "d0"))
+                argv_files = [os.path.relpath(paths[f]) for f in cfg["mains"]]
+            else:
+                os.chdir(os.path.join(root, "elsewhere"))
+                argv_files = [paths[f] for f in cfg["mains"]]
+            _opens.clear()
+            try:
+                status, nodes, _ = CL.run_main(argv_files + idirs + ["--python_out", out])
+            finally:
+                os.chdir(old)
+            opens = dict(_opens)
+            res["n"] += 1
+            expect_ok = not cfg["errors"]
+            basef = {"check": "include", "config": {k: cfg[k] for k in ("dirOf", "idirs", "incs", "mains")},
+                     "expected_errors": cfg["errors"], "relative_paths": rel}
+            if len(cfg["incs"]["M"]) > 1 or cfg["incs"]["B"]:
+                res["nontrivial"] += 1
+            if not expect_ok:
+                res["n_diag"] += 1
+                if status == "ok":
+                    res["fails"].append(dict(basef, what="prophyc succeeded although the specification reports %r"
+                                             % (cfg["errors"],)))
+                elif status == "internal":
+                    res["fails"].append(dict(basef, what="missing/cyclic include ended in an internal exception: %s" % nodes))
+                else:
+                    text = str(nodes)
+                    kinds = set(e[0] for e in cfg["errors"])
+                    if "cyclic" in kinds and "included again" not in text and "not found" not in text:
+                        res["fails"].append(dict(basef, what="diagnostic does not mention the cyclic include: %s" % text[:300]))
+                    if kinds == {"missing"} and "not found" not in text:
+                        res["fails"].append(dict(basef, what="diagnostic does not mention the missing file: %s" % text[:300]))
+                shutil.rmtree(root, ignore_errors=True)
+                continue
+            res["n_ok"] += 1
+            if status != "ok":
+                res["fails"].append(dict(basef, what="prophyc failed on a well-formed multi-file schema: %s" % (nodes,)))
+                shutil.rmtree(root, ignore_errors=True)
+                continue
+            for f in ("M", "A", "B"):
+                got = opens.get(os.path.abspath(paths[f]), 0)
+                if got != cfg["reads"][f]:
+                    res["fails"].append(dict(basef, what="file %s was opened %d time(s); the specification reads it %d time(s)"
+                                             % (f, got, cfg["reads"][f])))
+            # equivalence with the single file
+            if set(cfg["mains"]) == {"M", "A", "B"}:
+                sdir = os.path.join(root, "single")
+                st2, nodes2, _ = CL.run_main([os.path.join(sdir, "ALL.prophy"), "--python_out", sdir])
+                if st2 != "ok":
+                    raise RuntimeError("single-file rendering does not compile: %s" % (nodes2,))
+                try:
+                    mods = load_package(out, "p", ["A", "B", "M"])
+                    single = P.import_generated(sdir, "ALL")
+                except Exception as e:  # noqa
+                    res["fails"].append(dict(basef, what="generated per-file modules do not import: %s" % P.exc_text(e)))
+                    shutil.rmtree(root, ignore_errors=True)
+                    continue
+                sn = {n.name: n for n in nodes2["ALL"]}
+                for stem in ("A", "B", "M"):
+                    for n in nodes[stem]:
+                        if hasattr(n, "byte_size") and n.name in sn:
+                            if (n.byte_size, n.alignment, n.kind) != (sn[n.name].byte_size, sn[n.name].alignment, sn[n.name].kind):
+                                res["fails"].append(dict(basef, what="layout of %s differs: multi-file (%r,%r,%r), single file (%r,%r,%r)"
+                                                         % (n.name, n.byte_size, n.alignment, n.kind, sn[n.name].byte_size,
+                                                            sn[n.name].alignment, sn[n.name].kind)))
+                if mods["A"].CA != single.CA:
+                    res["fails"].append(dict(basef, what="constant CA differs"))
+                x, y = mods["M"].SM(), single.SM()
+                for msg in (x, y):
+                    msg.t = 7
+                    msg.w[:] = [1, -2]
+                    if "A" in cfg["incs"]["M"]:
+                        msg.a.x[:] = [1, 2, 3]
+                        msg.a.e = "EA_y"
+                    if "B" in cfg["incs"]["M"]:
+                        msg.b.y = 513
+                        msg.b.z = 2 ** 40
+                if x.encode("<") != y.encode("<") or x.encode(">") != y.encode(">"):
+                    res["fails"].append(dict(basef, what="encodings differ: multi-file %s, single file %s"
+                                             % (x.encode("<").hex(), y.encode("<").hex())))
+            if len(res["samples"]) < 1:
+                res["samples"].append({"config": basef["config"], "reads": cfg["reads"], "opened": {os.path.basename(k): v for k, v in opens.items()}})
+            shutil.rmtree(root, ignore_errors=True)
+    finally:
+        shutil.rmtree(base, ignore_errors=True)
+    return res
+
+
+def c16(tier, replay):
+    rep = Report("C16", tier)
+    rep.assumptions = [
+        "spec/FileProc.tla: three files (main M, includable A and B), their directories, the -I list, include lists incl. "
+        "duplicates, a missing file, cyclic and self includes, and the command-line order - 8064 configurations, all "
+        "model-checked (ReadOnce, DirsDiscipline, DirsRestored, ResolutionDeclarative, MissingReported, Terminates)",
+        "file opens are counted with sys.addaudithook; relative paths from the main's directory alternate with absolute "
+        "paths from another working directory",
+        "the declarations inside the files are fixed (constant, enum, three structs); a file uses another file's types "
+        "iff it includes it directly"]
+    cases, stats = fileproc_cases()
+    for st in stats:
+        rep.add_tlc(st)
+    rnd = random.Random(seed())
+    ok_cases = [c for c in cases if not c["errors"]]
+    bad_cases = [c for c in cases if c["errors"]]
+    n = 500 if tier == "quick" else 6000
+    pick = rnd.sample(ok_cases, min(len(ok_cases), n)) + rnd.sample(bad_cases, min(len(bad_cases), n))
+    jobs = _chunks(pick, NCPU)
+    with ProcessPoolExecutor(max_workers=NCPU) as ex:
+        results = list(ex.map(include_worker, jobs, range(len(jobs)), [{"scratch": scratch_dir("inc")}] * len(jobs)))
+    nt = 0
+    for r in results:
+        rep.count(r["n"])
+        rep.validated(r["n"])
+        nt += r["nontrivial"]
+        rep.cov["configs_ok"] = rep.cov.get("configs_ok", 0) + r["n_ok"]
+        rep.cov["configs_with_diagnostic"] = rep.cov.get("configs_with_diagnostic", 0) + r["n_diag"]
+        for s in r["samples"]:
+            rep.sample(s)
+        for f in r["fails"]:
+            rep.violation(f, shadows.match("C16", f))
+    for k in range(nt):
+        rep.nontrivial(k)
+    rep.cov["configurations_model_checked"] = len(cases)
+    rep.cov["rule"] = ("TLC enumerates and model-checks every configuration of spec/FileProc.tla and dumps the expected "
+                       "diagnostics, read counts and include resolution; a seeded sample is materialised on disk and "
+                       "compiled; non-trivial = more than one include or a nested include")
+    rep.cov["exhaustive"] = False
+    return rep.finish()
+
+
+def _snapshot(outdir):
+    out = {}
+    for name in sorted(os.listdir(outdir)):
+        p = os.path.join(outdir, name)
+        if os.path.isfile(p):
+            with open(p, "rb") as f:
+                out[name] = f.read()
+    return out
+
+
+def determinism_worker(cases, wid, extra):
+    import itertools
+    res = {"fails": [], "n": 0, "samples": [], "nontrivial": 0, "runs": 0}
+    base = tempfile.mkdtemp(prefix="vfdet-", dir=extra.get("scratch"))
+    try:
+        for ci, cfg in enumerate(cases):
+            root = os.path.join(base, "c%d" % ci)
+            os.makedirs(root)
+            paths = materialise(cfg, root)
+            idirs = []
+            for d in cfg["idirs"]:
+                idirs += ["-I", os.path.join(root, d)]
+            mains = list(cfg["mains"])
+
+            def run(order, hashseed, cwd, tag, alone=False):
+                out = os.path.join(root, "o_" + tag)
+                os.makedirs(out)
+                files = [paths[f] if cwd != "d0" else os.path.relpath(paths[f], os.path.join(root, "d0")) for f in order]
+                argv = files + idirs + ["--python_out", out, "--cpp_out", out, "--cpp_full_out", out, "--prophy_out", out]
+                rc, text = CL.run_cli(argv, cwd=os.path.join(root, cwd), env={"PYTHONHASHSEED": hashseed})
+                res["runs"] += 1
+                return rc, text, _snapshot(out)
+
+            rc, text, ref = run(mains, "0", "d0", "ref")
+            res["n"] += 1
+            basef = {"check": "determinism", "config": {k: cfg[k] for k in ("dirOf", "idirs", "incs", "mains")}}
+            if rc != 0:
+                res["fails"].append(dict(basef, what="baseline run failed (rc=%s): %s" % (rc, text[-300:])))
+                continue
+            variants = [(mains, "0", "d0", "repeat"), (mains, "1", "d0", "seed1"), (mains, "2", "elsewhere", "seed2_cwd"),
+                        (mains, "random", "d0", "seedrandom")]
+            if len(mains) > 1:
+                res["nontrivial"] += 1
+                perms = [list(p) for p in itertools.permutations(mains) if list(p) != mains]
+                for k, p in enumerate(perms[:3]):
+                    variants.append((p, str(k + 3), "elsewhere" if k % 2 else "d0", "order%d" % k))
+            for order, hs, cwd, tag in variants:
+                rc, text, snap = run(order, hs, cwd, tag)
+                if rc != 0:
+                    res["fails"].append(dict(basef, what="run %s (order %r, PYTHONHASHSEED=%s, cwd=%s) failed: %s"
+                                             % (tag, order, hs, cwd, text[-300:])))
+                    continue
+                if snap != ref:
+                    diff = sorted(n for n in set(ref) | set(snap) if ref.get(n) != snap.get(n))
+                    res["fails"].append(dict(basef, what="outputs differ from the reference run for order %r, "
+                                             "PYTHONHASHSEED=%s, cwd=%s: %s" % (order, hs, cwd, diff)))
+            # compiling one file never changes what is generated for another
+            for f in mains:
+                rc, text, snap = run([f], "0", "d0", "alone_" + f)
+                if rc != 0:
+                    res["fails"].append(dict(basef, what="compiling %s alone failed: %s" % (f, text[-300:])))
+                    continue
+                for name, data in snap.items():
+                    if ref.get(name) != data:
+                        res["fails"].append(dict(basef, what="%s differs when %s is compiled alone vs together with %r"
+                                                 % (name, f, mains)))
+            if len(res["samples"]) < 1:
+                res["samples"].append({"config": basef["config"], "files": sorted(ref), "variants": [v[3] for v in variants]})
+            shutil.rmtree(root, ignore_errors=True)
+    finally:
+        shutil.rmtree(base, ignore_errors=True)
+    return res
+
+
+def c20(tier, replay):
+    rep = Report("C20", tier)
+    rep.assumptions = [
+        "configurations (file placement, -I list, include lists, command-line order) are those of spec/FileProc.tla whose "
+        "model-checked behaviour reports no error; ResolutionDeclarative is the design-level form of order independence",
+        "each configuration is compiled by `python -m prophyc` subprocesses with all four back-ends: twice identically, "
+        "with PYTHONHASHSEED 1, 2 and random, from another working directory with absolute paths, with the command-line "
+        "order permuted, and each input alone; all generated files are compared byte for byte"]
+    cases, stats = fileproc_cases()
+    for st in stats:
+        rep.add_tlc(st)
+    rnd = random.Random(seed())
+    ok_cases = [c for c in cases if not c["errors"]]
+    multi = [c for c in ok_cases if len(c["mains"]) > 1]
+    single = [c for c in ok_cases if len(c["mains"]) == 1]
+    n = 40 if tier == "quick" else 600
+    pick = rnd.sample(multi, min(len(multi), n)) + rnd.sample(single, min(len(single), n // 4))
+    jobs = _chunks(pick, NCPU)
+    with ProcessPoolExecutor(max_workers=NCPU) as ex:
+        results = list(ex.map(determinism_worker, jobs, range(len(jobs)), [{"scratch": scratch_dir("det")}] * len(jobs)))
+    nt = 0
+    for r in results:
+        rep.count(r["runs"])
+        rep.validated(r["n"])
+        nt += r["nontrivial"]
+        for s in r["samples"]:
+            rep.sample(s)
+        for f in r["fails"]:
+            rep.violation(f, shadows.match("C20", f))
+    for k in range(nt):
+        rep.nontrivial(k)
+    rep.cov["configurations_model_checked"] = len(cases)
+    rep.cov["configurations_run"] = len(pick)
+    rep.cov["rule"] = ("configurations from TLC (spec/FileProc.tla) x {repeat, hash seeds, working directory, "
+                       "command-line permutations, single-input runs}; evaluations = prophyc subprocess runs; "
+                       "non-trivial = configurations with several main files")
+    rep.cov["exhaustive"] = False
+    return rep.finish()
